@@ -51,17 +51,46 @@ func (c *verifC07_iscc) Put(ctx context.Context, d digest.Digest, b buffer.Buffe
 		return err
 	}
 	v := m.(*remoteexecution.Digest).SizeBytes
+	plan, _ := ctx.Value(verifC07_planKey{}).(*verifC07_plan)
+	k := 0
+	if d.GetHashString() == verifC07_h2 {
+		k = 1
+	}
 	c.inFlight++
-	if c.budget > 0 && rt.NondetBool("another request arrives while this write is in progress") {
+	if plan != nil && plan.overlap[k] && c.budget > 0 {
+		plan.overlap[k] = false
 		c.budget--
 		c.during()
 	}
 	c.inFlight--
-	if c.mayFail && rt.NondetBool("cache write fails") {
+	if plan != nil && plan.fail[k] {
 		return status.Error(codes.Unavailable, "write failed")
 	}
 	c.stored[d.GetHashString()] = v
 	return nil
+}
+
+// verifC07_plan: what happens to the cache writes piggybacked on one request.
+// It is drawn when the request is issued and travels in the request's context,
+// so that the values do not depend on the order in which the store's write
+// goroutines happen to call the stub (natively they run concurrently).
+type verifC07_plan struct {
+	overlap [2]bool // another request arrives during the write of d1 / d2
+	fail    [2]bool // the write of d1 / d2 fails
+}
+
+type verifC07_planKey struct{}
+
+type verifC07_ctx struct {
+	context.Context
+	plan *verifC07_plan
+}
+
+func (c verifC07_ctx) Value(key any) any {
+	if _, ok := key.(verifC07_planKey); ok {
+		return c.plan
+	}
+	return c.Context.Value(key)
 }
 
 const verifC07_h1 = "1111111111111111111111111111111111111111111111111111111111111111"
@@ -84,8 +113,20 @@ func verifHarness_C07_MutableProtoStore() {
 	iscc.latest = &counter
 	failures := 0
 
+	newCtx := func() context.Context {
+		pl := &verifC07_plan{}
+		for k, dg := range []digest.Digest{d1, d2} {
+			// only a handle that is queued right now can be written by this request
+			if h, ok := ss.handles[dg]; !ok || h.handlesToWriteIndex < 0 {
+				continue
+			}
+			pl.overlap[k] = iscc.budget > 0 && rt.NondetBool("another request arrives while this write is in progress")
+			pl.fail[k] = iscc.mayFail && rt.NondetBool("cache write fails")
+		}
+		return verifC07_ctx{Context: ctx, plan: pl}
+	}
 	update := func() {
-		h, err := ss.Get(ctx, d1)
+		h, err := ss.Get(newCtx(), d1)
 		if err != nil {
 			failures++
 			return
@@ -101,7 +142,7 @@ func verifHarness_C07_MutableProtoStore() {
 	var counter2 int64
 	iscc.latest2 = &counter2
 	read := func() {
-		h, err := ss.Get(ctx, d2)
+		h, err := ss.Get(newCtx(), d2)
 		if err != nil {
 			failures++
 			return
